@@ -23,6 +23,9 @@ RULE = ('base programs derived from the grammar (every alternative of every rule
         'grammar (recogniser rejects); distinct = hash of the text')
 ASSUMPTIONS = ['ypv/recog.py (hand lexer + set-of-end-positions recogniser written from prolog.g4) decides membership in the grammar',
                'raising is always acceptable; which exception type is raised is not judged']
+RULE_ADDED = (' Added after the rounds of independently written changes (DESIGN.md 12.2): ' +
+              'rejected texts compiled again with every debug option; file API: a valid version, then same-size text outside the grammar with the old modification time; files with invalid UTF-8 inserted at every kind of position; a long text with an early error compiled on a worker thread while this thread compiles other programs (judged: the bad text raises).')
+RULE = RULE + RULE_ADDED
 
 
 def plan(tier, seed):
